@@ -12,6 +12,13 @@ func cmdC08(c *ctx) {
 	for i := 0; i < c.n; i++ {
 		o := defaultGenOpts(c)
 		m, feat := genModule(c, o)
+		wHexFloats = true
+		if wLitSalt == 0 && c.chance(0.2) {
+			wLitSalt = c.rng.Uint32() | 1 // alternative literal spellings (hex, exponent, suffix-only, leading-dot forms)
+		}
+		if wLitSalt != 0 {
+			c.count("literal-spellings")
+		}
 		src := m.wgsl()
 		c.line("src.txt", q(src))
 		mod, res := frontEnd(src)
@@ -24,6 +31,29 @@ func cmdC08(c *ctx) {
 			if r.err != "" {
 				out += fmt.Sprintf(" %s: %s;", r.stage, r.err)
 				c.count("reject-" + r.stage)
+			}
+		}
+		if out != "" && wLitSalt != 0 {
+			// is the rejection caused by a hexadecimal float literal?  The same program with those literals in decimal:
+			wNoHexFloat = true
+			s2 := m.wgsl()
+			wNoHexFloat = false
+			if s2 != src {
+				ok2 := true
+				mod2, r2 := frontEnd(s2)
+				if mod2 != nil {
+					_, rb := backends(mod2, "main")
+					r2 = append(r2, rb...)
+				}
+				for _, r := range r2 {
+					if r.err != "" {
+						ok2 = false
+					}
+				}
+				if ok2 {
+					out = " cause=hex-float-literal" + out
+					c.count("cause:hex-float-literal")
+				}
 			}
 		}
 		if out == "" {
@@ -52,6 +82,7 @@ func cmdC08(c *ctx) {
 		for _, k := range ks {
 			c.stats["feat:"+k] += feat[k]
 		}
+		wLitSalt = 0
 	}
 }
 
